@@ -28,6 +28,19 @@ def eq(a, b):
     return V.to_real(V.num_of_bool(a)) == V.to_real(V.num_of_bool(b))
 
 
+def discharge_split(w, name, assume, claim, split, **kw):
+    """Decide `claim`; if the solver does not finish, decide it separately under `split` and under `not split` (a case
+    distinction - both cases together are the original obligation)."""
+    budget = kw.pop("first_timeout_ms", 60000)
+    v = w.discharge(name, assume, claim, first_timeout_ms=min(budget, 15000), **kw)
+    if v in ("unsat", "sat", "folded"):
+        return v
+    w.res.queries.pop()          # replaced by the two cases below
+    v1 = w.discharge(name + "[case: reference cell is nodata]", list(assume) + [split], claim, first_timeout_ms=budget, **kw)
+    v2 = w.discharge(name + "[case: reference cell is an index]", list(assume) + [z3.Not(split)], claim, first_timeout_ms=budget, **kw)
+    return "unsat" if (v1 in ("unsat", "folded") and v2 in ("unsat", "folded")) else "unknown"
+
+
 def w_yxt(w, cfg):
     T, missing, (c0, c1) = cfg["T"], cfg["missing"], cfg["window"]
     two = cfg.get("two_pixels", False)
@@ -103,8 +116,8 @@ def w_grp(w, cfg):
         lem = list(it.A.lemmas)
         for k, i in enumerate(members[g]):
             w.discharge(f"gammastd_grp.written[{i}]", assume, written[i], lemmas=lem, concretize=conc)
-            w.discharge(f"gammastd_grp.group{g}[{i}]", assume, eq(got[i], ref[k]), lemmas=lem, concretize=conc,
-                        first_timeout_ms=min(w.timeout_ms, 60000))
+            discharge_split(w, f"gammastd_grp.group{g}[{i}]", assume, eq(got[i], ref[k]), V.to_real(ref[k]) == z3.ToReal(nd), lemmas=lem,
+                            concretize=conc, first_timeout_ms=min(w.timeout_ms, 60000))
 
 
 def worker(w, cfg):
